@@ -374,7 +374,7 @@ class TBus(EventBus):
         b = RT.busidx[self]
         try:
             r = super().dispatch(event)
-            RT.rec('dispatch', p=p, b=b, e=e, res='ok', hist=bussnap(self)['hist'], same=(r is event))
+            RT.rec('dispatch', p=p, b=b, e=e, res='ok', hist=bussnap(self)['hist'], q=bussnap(self)['q'], same=(r is event))
             return r
         except BaseException as ex:
             res = {'RuntimeError': 'capacity', 'QueueFull': 'queueFull', 'QueueShutDown': 'shutDown'}.get(type(ex).__name__, type(ex).__name__)
